@@ -197,8 +197,10 @@ def discharge_contracts(rep: Report, modname, n_contracts, timeout_ms, jobs=None
 
 def finish(rep: Report, level="proof", technique=""):
     """verdict, evidence file, exit code"""
-    n_ob = len(rep.obligations)
+    n_known = sum(1 for o in rep.obligations.values() if o["verdict"] == "known-finding")
+    n_ob = len(rep.obligations) - n_known  # obligations matched by a listed known finding are reported separately
     n_dis = sum(1 for o in rep.obligations.values() if o["verdict"] == "discharged")
+    rep.extra["known_finding_obligations"] = n_known
     code = 0
     if rep.errors or rep.canary_fail:
         code = 3
